@@ -94,6 +94,7 @@ MULTILINE_STRINGS = [
     'x = f"""abc\n{x}"""\n', "x = f'abc\\\n{y}'\n", "x = f'''{a}\n{b}\n'''\n", 'x = f"""{a:\n>10}"""\n', 'x = f"""\n{a}\n  {b}\nend"""\n', "x = '''a\n{b}\n'''\n",
     'x = f"""a\n\n{x}{y}\n}}{{\n"""\n', "x = rf'''\\\n{z}'''\n", 'x = """\n"""\n', "x = 'a\\\nb\\\nc'\n", 'x = f"{a}\\\n{b}"\n', "x = p'''/a\n/b'''\n", "f'''{\nx\n}'''\n", 'f"""{x:{\ny}}"""\n',
     # backslash-continued plain strings followed by more text (their CRLF variants are derived below)
+    "\rx = 1\n", "if a:\n    \rb = 1\n", "x = 1\n\r\ny = 2\n",
     "x = 'abc\\\ndef'\ny\n", 'x = "a\\\nb" + c\nz = 1\n', "f('a\\\n', b'b\\\nc')\nw\n", "if a:\n    s = 'p\\\n    q'\n    t = 1\nu = 2\n", "x = ['a\\\nb',\n     'c']\ny\n",
 ]
 
